@@ -73,6 +73,48 @@ def plain_server_arbitrary_stream(h, allow_v2=None):
         h.cover("c06.plain-server.rejected")
 
 
+def plain_client_arbitrary_stream(h):
+    """connector configured with PLAIN; the peer (a would-be listener) sends n arbitrary bytes (one read). The connector
+    may report a completed handshake / deliver a message only if the peer's greeting named the PLAIN mechanism and a
+    WELCOME command reached the mechanism (the listener's acceptance of the credentials); it never sends WELCOME
+    itself (that would be playing the listener)."""
+    n = h.params.get("n", 84)
+    cl = h.params.get("cred_len", 1)
+    user = h.bytes("cfg_user", cl)
+    pw = h.bytes("cfg_pass", cl)
+    allow = h.choose(2, "allow_zmtp2") == 1
+    cfg = mk_config(h, socket_type_name=string("REQ"), security_enabled=True, use_plain=True, allow_zmtp2=allow,
+                    plain_username_for_engine=some(Seq("string", list(user))),
+                    plain_password_for_engine=some(Seq("string", list(pw))))
+    eng = mk_engine(h, False, cfg)
+    toks = _record_tokens(h)
+    _stop_at_data_phase(h)
+    h.panic_role = "c06.plain-client.panic"
+    start(h, eng)
+    data = h.bytes("peer", n)
+    out = feed(h, eng, data)
+    acts = app_actions(out)
+    ph = phase(h, eng)
+    sent = list(sends(out))
+    welcome_at = [i for i in range(len(sent) - 7) if all(isinstance(sent[i + k], int) and sent[i + k] == WELCOME[k] for k in range(8))]
+    h.check(not welcome_at, "c06.plain-client.connector-sent-welcome", "the PLAIN connector emitted a WELCOME command")
+    if _authenticated(acts) or ph in ("Data", "Ready"):
+        # some token handed to the mechanism must be the listener's WELCOME, and the greeting must have named PLAIN
+        conds = [conj([bv(a, 8) == bv(b, 8) for a, b in zip(t, WELCOME)]) for t in toks if len(t) >= len(WELCOME)]
+        ok = False
+        for c in conds:
+            ok = c if ok is False else simp(z3.Or(bl(ok), bl(c)))
+        h.check(ok, "c06.plain-client.authenticated-without-welcome",
+                f"HandshakeComplete/DeliverMessage/Data phase reached (phase={ph}) although no WELCOME command reached the PLAIN mechanism")
+        mech = list(b"PLAIN") + [0] * 15
+        named = conj([bv(data[12 + i], 8) == mech[i] for i in range(20)])
+        h.check(named, "c06.plain-client.authenticated-with-a-peer-that-named-another-mechanism",
+                "handshake completed although the peer's greeting does not name the PLAIN mechanism")
+        h.cover("c06.plain-client.handshake-complete-after-welcome", ok)
+    else:
+        h.cover("c06.plain-client.rejected")
+
+
 def replay_plain_server_arbitrary_stream(model, params, role):
     script = (f"engine server type=REP security=1 plain_user={model.get('cfg_user','')} plain_pass={model.get('cfg_pass','')} "
               f"allow_zmtp2={1 if dict(map(tuple, model.get('_choices', []))).get('allow_zmtp2', 1) else 0}\nstart\nfeed {model.get('peer','')}\nphase\n")
